@@ -107,8 +107,6 @@ Definition mkc (v t : Z) (del : bool) : content :=
 Definition ent_of (w : went) : ent := {| e_id := w_e w; e_c := mkc (w_v w) (w_t w) (w_del w) |}.
 Definition went_exps (w : went) : list Z :=
   [w_e w mod 3; 0] ++ (if w_t w <? 0 then [] else [0; w_t w mod 3]).
-Definition went_uris (w : went) : list Z :=
-  w_e w :: (if w_t w <? 0 then [] else [u_pred; w_t w]).
 
 (** AssertPrefixMappingForExpansion: the whole state is stored with every new prefix *)
 Definition assert_ns (e : Z) (s : dmstate) : dmstate :=
@@ -128,6 +126,16 @@ Definition assert_uri (u : Z) (s : dmstate) : dmstate :=
        d_reg := d_reg s; d_del := d_del s; d_next := d_next s; d_ns := d_ns s; d_fs := d_fs s;
        d_ids := d_ids s ++ [(u, n)]; d_data := d_data s |}
   end.
+
+(** the URIs StoreEntitiesWithTransaction asserts for one entity: its id; the predicate and the target of its
+    reference when the id was new to the store or the entity is not deleted (a deleted version of a known id only
+    tombstones the references of its predecessor) *)
+Definition assert_went (w : went) (s : dmstate) : dmstate :=
+  let isnew := negb (amem (w_e w) (d_ids s)) in
+  let s1 := assert_uri (w_e w) s in
+  if w_t w <? 0 then s1
+  else if isnew || negb (w_del w) then assert_uri (w_t w) (assert_uri u_pred s1)
+  else s1.
 
 Definition set_fs (fm : fs_mode) (fs : list (Z * fsst)) (s : dmstate) : dmstate :=
   {| m_reg := m_reg s; m_del := m_del s; m_next := m_next s; m_ns := m_ns s; m_fs := fs; m_seq := m_seq s;
@@ -262,7 +270,7 @@ Definition dm_post (fl : rflags) (n : Z) (start : bool) (fsid : Z) (fin : bool) 
     | None => (s, RConflict)
     | Some s1 =>
       let s2 := fold_left (fun s e => assert_ns e s) (flat_map went_exps es) s1 in
-      let s3 := fold_left (fun s u => assert_uri u s) (flat_map went_uris es) s2 in
+      let s3 := fold_left (fun s w => assert_went w s) es s2 in
       let s4 := dm_store fl id (map ent_of es) s3 in
       if fin then
         match assoc id (m_fs s4) with
@@ -307,7 +315,7 @@ Definition dm_init : dmstate :=
     memory holds the cron entries of the jobs that are not paused. *)
 Record jobcfg := { j_paused : bool; j_src : Z; j_sink : Z; j_delay : option Z }.   (* retryDelay of a reRun handler *)
 Record jobstate := {
-  m_sched : list (Z * unit);          (* Runner.scheduledJobs (non-empty entries) *)
+  m_sched : list (Z * bool);          (* Runner.scheduledJobs: true = the job has cron entries *)
   d_jcfg : list (Z * jobcfg);         (* JobConfigIndex *)
   d_jtok : list (Z * Z);              (* JobDataIndex: SyncJobState.ContinuationToken *)
   d_jhist : list (Z * (bool * Z))     (* JobResultIndex: failed?, processed *)
@@ -327,7 +335,7 @@ Definition verify_cfg (dm : delay_mode) (c : jobcfg) : jobcfg :=
 (** AddJob: verify (mutates), StoreObject, clearCrontab, schedule unless paused *)
 Definition job_add (dm : delay_mode) (j : Z) (c : jobcfg) (s : jobstate) : jobstate :=
   let c' := verify_cfg dm c in
-  {| m_sched := if j_paused c' then adel j (m_sched s) else set_assoc j tt (m_sched s);
+  {| m_sched := set_assoc j (negb (j_paused c')) (m_sched s);
      d_jcfg := set_assoc j c' (d_jcfg s); d_jtok := d_jtok s; d_jhist := d_jhist s |}.
 
 Inductive jobop :=
@@ -336,10 +344,12 @@ Inductive jobop :=
 | JDelete (j : Z)
 | JRun (j : Z).                 (* RunJob, incremental *)
 
-(** NewRunner + NewScheduler: Start loads every stored configuration, then AddJob for each *)
+(** NewRunner + NewScheduler: Start loads the stored configurations and calls AddJob for each of them:
+    every configuration goes through verify and is stored again; it is scheduled unless paused *)
 Definition job_reopen (dm : delay_mode) (s : jobstate) : jobstate :=
-  fold_left (fun s (p : Z * jobcfg) => job_add dm (fst p) (snd p) s) (d_jcfg s)
-            {| m_sched := []; d_jcfg := d_jcfg s; d_jtok := d_jtok s; d_jhist := d_jhist s |}.
+  {| m_sched := map (fun p : Z * jobcfg => (fst p, negb (j_paused (verify_cfg dm (snd p))))) (d_jcfg s);
+     d_jcfg := map (fun p : Z * jobcfg => (fst p, verify_cfg dm (snd p))) (d_jcfg s);
+     d_jtok := d_jtok s; d_jhist := d_jhist s |}.
 
 (** ** Login providers *)
 Record provstate := {
@@ -348,7 +358,7 @@ Record provstate := {
 }.
 Definition prov_init : provstate := {| m_tp := []; d_prov := [] |}.
 (** name codes: 0..9 capitalised ("Pa".."Pj"), 10..19 the same names in lower case; numeric order = byte order *)
-Definition lower (n : Z) : Z := if n <? 10 then n + 10 else n.
+Definition lower (n : Z) : Z := if (0 <=? n) && (n <? 10) then n + 10 else n.
 Definition prov_key (pm : prov_mode) (n : Z) : Z := match pm with ProvRawKey => n | ProvLowerKey => lower n end.
 
 Inductive provop := PAdd (n u : Z) | PDelete (n : Z).
@@ -512,7 +522,7 @@ Definition obs (clients : list string) (h : hub) : snap :=
             match j_delay (snd p) with Some _ => 1 | None => 0 end;
             match j_delay (snd p) with Some d => d | None => 0 end]) (d_jcfg js);
     map (fun p : Z * Z => [fst p; snd p]) (d_jtok js);
-    [map fst (m_sched js)];
+    [map fst (filter (fun p : Z * bool => snd p) (m_sched js))];
     map (fun p : Z * (bool * Z) => [fst p; bz (fst (snd p)); snd (snd p)]) (d_jhist js);
     map (fun c => bz (match lookup c (mem_clients (h_sec h)) with Some _ => true | None => false end)
                   :: match lookup c (mem_acls (h_sec h)) with
